@@ -6,6 +6,7 @@ import (
 	"go/token"
 	"go/types"
 	"math/big"
+	"os"
 	"strings"
 
 	"golang.org/x/tools/go/ssa"
@@ -187,7 +188,7 @@ func (ex *Exec) wellFormed(st *State, v Value, pc *Term) {
 // heap only contains references that were allocated on entry (so they differ
 // from everything the function allocates itself).
 func (ex *Exec) initiallyAllocated(t *Term, pc *Term) {
-	if ex.alloc0 == nil || t.op != "select" || t.sort != SRef {
+	if ex.alloc0 == nil || t.op != "select" || t.sort != SRef || os.Getenv("LNCVC_NOINITALLOC") != "" {
 		return
 	}
 	idx := t.args[1]
